@@ -38,7 +38,8 @@ RULE = ("cases: sequences of update(model, scale, indices) on fixed and adaptive
         "Independent / Correlated / ModelList GP wrappers; index subsets of size 1..N in arbitrary order "
         "(single design explicit), None, duplicates; scale 0-d / (1,) / (m,) / (n,1) / (n,m) and malformed; "
         "intersect_iteratively toggled on the region objects; geometric shapes nested / overlapping / "
-        "touching / disjoint / identical / degenerate; refinement between updates (adaptive); model data "
+        "touching / disjoint / identical / degenerate / thin overlaps (2^-7..2^-12) at offsets 2^10..2^20; "
+        "refinement between updates (adaptive); model data "
         "added between updates; non-trivial = at least two updates of some design or a proper subset "
         "updated; distinct by the full case")
 ASSUMPTIONS = ["std = numpy sqrt(diag cov) is taken as the exact half-width factor (float sqrt not modelled)",
@@ -255,7 +256,7 @@ def _case_stub(rng, exact):
 
 
 GEO = ["identical", "nested", "contains", "overlap", "touch-low", "touch-up", "vertex", "disjoint",
-       "degenerate-inside", "degenerate-boundary"]
+       "degenerate-inside", "degenerate-boundary", "thin-low", "thin-up", "thin-low", "thin-up"]
 
 
 def _case_geo(rng):
@@ -265,7 +266,13 @@ def _case_geo(rng):
     n = rng.randint(1, 5)
     pts = [[float(i), float((i * 7) % 5)] for i in range(n)]
     ops = [{"op": "iter", "b": True, "idx": list(range(n))}]
-    mu0 = [[_dy(rng, -16, 16, 1) for _ in range(m)] for _ in range(n)]
+    # un-normalised objectives: a common dyadic offset 2^10 .. 2^20 per (design, objective) in most cases; the
+    # "thin" relations overlap the current rectangle in a slab 2^-7 .. 2^-12 wide — a genuine overlap, far
+    # below any relative closeness tolerance at that magnitude, and exactly representable
+    big = rng.random() < 0.7
+    offs = [[(rng.choice([-1, 1]) * 2.0 ** rng.randint(10, 20) if big and rng.random() < 0.8 else 0.0)
+             for _ in range(m)] for _ in range(n)]
+    mu0 = [[_dy(rng, -16, 16, 1) + offs[i][j] for j in range(m)] for i in range(n)]
     sd0 = [[_dy(rng, 1, 8, 1) for _ in range(m)] for _ in range(n)]
     cur = [([a - b for a, b in zip(mu0[i], sd0[i])], [a + b for a, b in zip(mu0[i], sd0[i])]) for i in range(n)]
 
@@ -290,6 +297,10 @@ def _case_geo(rng):
                 sd = [2 * h + 1 for h in sd]
             elif g == "overlap":
                 mu = [a + h for a, h in zip(mu, sd)]
+            elif g == "thin-low":
+                mu[j0] = lo[j0] - sd[j0] + 2.0 ** -rng.randint(7, 12)
+            elif g == "thin-up":
+                mu[j0] = up[j0] + sd[j0] - 2.0 ** -rng.randint(7, 12)
             elif g == "touch-low":
                 mu[j0] = lo[j0] - sd[j0]
             elif g == "touch-up":
